@@ -9,3 +9,6 @@ open SophiaProofs.C06
 #print axioms not_implEqSpec
 #print axioms escapes_as_specified
 #print axioms impl_eq_spec_partial
+#print axioms skip_rule_as_specified
+#print axioms C06_witness_agrees
+#print axioms C06_family_agrees
